@@ -3,6 +3,7 @@ package sizes
 import (
 	"encoding/json"
 	"fmt"
+	"strings"
 	"sync"
 
 	"github.com/github/git-sizer/git"
@@ -132,9 +133,25 @@ func (p *Path) TreePrefix() string {
 				return p.parent.TreePrefix() + p.relativePath + "/"
 			}
 		case p.relativePath != "":
-			return p.relativePath + "/"
+			// This tree is itself a named root (e.g., a reference or
+			// command-line argument that points directly at a tree,
+			// like `refs/tags/t` or `HEAD^{tree}` or `HEAD:dir`). A
+			// path within it has to be attached using the
+			// `<tree-ish>:<path>` syntax:
+			switch {
+			case strings.HasSuffix(p.relativePath, ":"):
+				return p.relativePath
+			case strings.Contains(p.relativePath, ":"):
+				// The name already has the form `<tree-ish>:<path>`.
+				return p.relativePath + "/"
+			default:
+				return p.relativePath + ":"
+			}
 		default:
-			return "???"
+			// We never learned a name for this tree (e.g., because it
+			// is only reachable via an annotated tag). Fall back to
+			// its object ID, which is also a valid tree-ish:
+			return p.OID.String() + ":"
 		}
 	case "commit", "tag":
 		switch {
